@@ -53,6 +53,10 @@ func (watchStream) Generate(rng *rand.Rand, tier string, emit func(Case)) {
 		{"lock", "rmdir", "mkdir", "writeInPlace", "unlock", "pause", "rmdir"},
 		{"rmdir", "pause", "mkdir", "moveIn"}, {"writeInPlace", "rmdir", "mkdir", "writeViaTemp"},
 		{"rmdir", "mkdir", "pause", "writeInPlace", "pause", "rmdir", "mkdir"},
+		// the same kind of event several times in a row (each must be acted upon)
+		{"writeInPlace", "pause", "rewrite", "pause", "rewrite"}, {"writeInPlace", "rewrite", "rewrite", "rewrite"},
+		{"writeViaTemp", "pause", "writeViaTemp", "pause", "writeViaTemp"}, {"moveIn", "pause", "moveIn", "pause", "moveIn"},
+		{"writeInPlace", "pause", "unlink", "pause", "writeInPlace", "pause", "unlink", "pause", "writeInPlace"},
 	}
 	for _, h := range fixed {
 		for _, start := range []bool{true, false} {
@@ -70,6 +74,9 @@ func (watchStream) Generate(rng *rand.Rand, tier string, emit func(Case)) {
 		locked := false
 		for k := 1 + rng.Intn(10); k > 0; k-- {
 			o := watchOps[rng.Intn(len(watchOps))]
+			if len(h) > 0 && rng.Intn(4) == 0 {
+				o = h[len(h)-1] // the same operation again
+			}
 			if o == "lock" {
 				if locked {
 					continue
